@@ -531,4 +531,191 @@ theorem agree_of_sigTx_eq {sc : Bytes} {t t' : Tx} {i ht : Nat} (hr : Regular ht
     simp only [Part.get]
     rw [hout k hc]
 
+/-! ### Part C: the table over edits -/
+
+theorem swapAt_self {α} (xs : List α) (k : Nat) : swapAt xs k k = xs := by
+  unfold swapAt
+  cases h : xs[k]? with
+  | none => rfl
+  | some a =>
+    simp only
+    obtain ⟨hk, rfl⟩ := List.getElem?_eq_some_iff.1 h
+    simp
+
+theorem getElem?_swapAt_ne {α} (xs : List α) (k l j : Nat) (h1 : j ≠ k) (h2 : j ≠ l) :
+    (swapAt xs k l)[j]? = xs[j]? := by
+  unfold swapAt
+  split
+  · rw [List.getElem?_set, List.getElem?_set]
+    rw [if_neg (Ne.symm h2), if_neg (Ne.symm h1)]
+  · rfl
+
+theorem length_swapAt {α} (xs : List α) (k l : Nat) : (swapAt xs k l).length = xs.length := by
+  unfold swapAt
+  split <;> simp
+
+theorem modify_map_other {α β} (l : List α) (k j : Nat) (f : α → α) (g : α → β) (h : ∀ x, g (f x) = g x) :
+    (l.modify k f)[j]?.map g = l[j]?.map g := by
+  rw [List.getElem?_modify]
+  cases l[j]? with
+  | none => rfl
+  | some a => simp only [Option.map_some, Functor.map]; split <;> simp [h]
+
+theorem modify_ne {α} (l : List α) (k j : Nat) (f : α → α) (h : k ≠ j) :
+    (l.modify k f)[j]? = l[j]? := by
+  rw [List.getElem?_modify]
+  cases l[j]? with
+  | none => rfl
+  | some a => simp [h]
+
+theorem getElem?_swapAt_of {α} (xs : List α) (k l j : Nat) (h : k = l ∨ (j ≠ k ∧ j ≠ l)) :
+    (swapAt xs k l)[j]? = xs[j]? := by
+  rcases h with rfl | ⟨h1, h2⟩
+  · rw [swapAt_self]
+  · exact getElem?_swapAt_ne xs k l j h1 h2
+
+theorem map_congr_arg {α β γ} (w : Option β → γ) (g : α → β) {a b : Option α} (h : a = b) :
+    w (a.map g) = w (b.map g) := by rw [h]
+
+theorem uncommitted_agree (ht i : Nat) (e : Edit) (t : Tx) (h : Committed ht i e = false) :
+    Agree ht i t (apply e t) := by
+  intro p hc
+  cases e <;> cases p <;> simp only [apply, Part.get, List.length_modify] <;> try rfl
+  all_goals first
+    | (simp_all [Committed, committed, List.getElem?_insertIdx, List.getElem?_eraseIdx, length_swapAt]; done)
+    | (apply congrArg; exact modify_map_other _ _ _ _ _ (fun _ => rfl))
+    | (apply map_congr_arg; apply modify_ne; intro hkk; subst hkk; simp_all [Committed, committed]; done)
+    | (apply map_congr_arg; apply getElem?_swapAt_of
+       cases hacp : isAnyoneCanPay ht <;> cases hall : isAll ht <;> cases hs : isSingle ht <;>
+            simp_all [Committed, committed] <;> omega)
+
+/-- only `Committed` edits can change a committed part -/
+theorem committed_of_changes {ht i : Nat} {e : Edit} {t : Tx} (h : changes ht i e t) : Committed ht i e = true := by
+  cases hC : Committed ht i e
+  · obtain ⟨p, hp, hne⟩ := h
+    exact absurd (uncommitted_agree ht i e t hC p hp) hne
+  · rfl
+
+theorem modify_ne_self {α} {l : List α} {k : Nat} {f : α → α} (h : l.modify k f ≠ l) :
+    ∃ x, l[k]? = some x ∧ f x ≠ x := by
+  cases hk : l[k]? with
+  | none =>
+    exfalso; apply h
+    apply List.ext_getElem?
+    intro j
+    rw [List.getElem?_modify]
+    cases hj : l[j]? with
+    | none => rfl
+    | some a =>
+      have : k ≠ j := by rintro rfl; rw [hk] at hj; cases hj
+      simp [this]
+  | some x =>
+    refine ⟨x, rfl, fun hfx => h ?_⟩
+    apply List.ext_getElem?
+    intro j
+    rw [List.getElem?_modify]
+    cases hj : l[j]? with
+    | none => rfl
+    | some a =>
+      by_cases hkj : k = j
+      · subst hkj
+        rw [hk] at hj
+        cases hj
+        simp [hfx]
+      · simp [hkj]
+
+theorem getElem?_modify_self {α} {l : List α} {k : Nat} {f : α → α} {x : α} (h : l[k]? = some x) :
+    (l.modify k f)[k]? = some (f x) := by
+  rw [List.getElem?_modify, h]; simp
+
+/-- a `Committed` field edit that changes the transaction at all changes a committed part -/
+theorem changes_of_field_edit {ht i : Nat} {e : Edit} {t : Tx} (hC : Committed ht i e = true)
+    (hf : isFieldSet e = true) (hne : apply e t ≠ t) : changes ht i e t := by
+  have tx_ne_vin : ∀ {v : List TxIn}, ({ t with vin := v } : Tx) ≠ t → v ≠ t.vin := by
+    intro v h hv; apply h; subst hv; rfl
+  have tx_ne_vout : ∀ {v : List TxOut}, ({ t with vout := v } : Tx) ≠ t → v ≠ t.vout := by
+    intro v h hv; apply h; subst hv; rfl
+  cases e with
+  | setPrevHash k hh =>
+    obtain ⟨x, hx, hfx⟩ := modify_ne_self (tx_ne_vin hne)
+    refine ⟨.prevHash k, hC, ?_⟩
+    simp only [apply, Part.get, getElem?_modify_self hx, hx, Option.map_some, optBytes, ne_eq, PVal.bytes.injEq]
+    intro h; apply hfx; rw [h]
+  | setPrevN k n =>
+    obtain ⟨x, hx, hfx⟩ := modify_ne_self (tx_ne_vin hne)
+    refine ⟨.prevN k, hC, ?_⟩
+    simp only [apply, Part.get, getElem?_modify_self hx, hx, Option.map_some, optNat, ne_eq, PVal.nat.injEq]
+    intro h; apply hfx; rw [h]
+  | setSequence k q =>
+    obtain ⟨x, hx, hfx⟩ := modify_ne_self (tx_ne_vin hne)
+    refine ⟨.sequence k, hC, ?_⟩
+    simp only [apply, Part.get, getElem?_modify_self hx, hx, Option.map_some, optNat, ne_eq, PVal.nat.injEq]
+    intro h; apply hfx; rw [h]
+  | setValue k v =>
+    obtain ⟨x, hx, hfx⟩ := modify_ne_self (tx_ne_vout hne)
+    refine ⟨.value k, hC, ?_⟩
+    simp only [apply, Part.get, getElem?_modify_self hx, hx, Option.map_some, optInt, ne_eq, PVal.int.injEq]
+    intro h; apply hfx; rw [h]
+  | setSpk k s =>
+    obtain ⟨x, hx, hfx⟩ := modify_ne_self (tx_ne_vout hne)
+    refine ⟨.spk k, hC, ?_⟩
+    simp only [apply, Part.get, getElem?_modify_self hx, hx, Option.map_some, optBytes, ne_eq, PVal.bytes.injEq]
+    intro h; apply hfx; rw [h]
+  | setLockTime n =>
+    refine ⟨.lockTime, rfl, ?_⟩
+    simp only [apply, Part.get, ne_eq, PVal.nat.injEq]
+    intro h; apply hne; simp only [apply]; rw [h]
+  | setVersion v =>
+    refine ⟨.version, rfl, ?_⟩
+    simp only [apply, Part.get, ne_eq, PVal.int.injEq]
+    intro h; apply hne; simp only [apply]; rw [h]
+  | _ => simp [isFieldSet] at hf
+
+/-- inserting or removing an input / output at an existing position changes the committed count
+    (no ANYONECANPAY for inputs; mode ALL for outputs) -/
+theorem changes_of_count_edit {ht i : Nat} {t : Tx} :
+    (∀ k x, isAnyoneCanPay ht = false → k ≤ t.vin.length → changes ht i (.insertInput k x) t) ∧
+    (∀ k, isAnyoneCanPay ht = false → k < t.vin.length → changes ht i (.removeInput k) t) ∧
+    (∀ k o, isAll ht = true → k ≤ t.vout.length → changes ht i (.insertOutput k o) t) ∧
+    (∀ k, isAll ht = true → k < t.vout.length → changes ht i (.removeOutput k) t) := by
+  refine ⟨?_, ?_, ?_, ?_⟩
+  · intro k x h hk
+    refine ⟨.inCount, by simp [committed, h], ?_⟩
+    simp [apply, Part.get, List.length_insertIdx, hk]
+  · intro k h hk
+    refine ⟨.inCount, by simp [committed, h], ?_⟩
+    simp [apply, Part.get, List.length_eraseIdx, hk]; omega
+  · intro k o h hk
+    refine ⟨.outCount, by simp [committed, h], ?_⟩
+    simp [apply, Part.get, List.length_insertIdx, hk]
+  · intro k h hk
+    refine ⟨.outCount, by simp [committed, h], ?_⟩
+    simp [apply, Part.get, List.length_eraseIdx, hk]; omega
+
+/-! ### the executable comparison `changedParts` decides `Agree` -/
+
+theorem mem_allParts (n : Nat) (p : Part) :
+    p ∈ allParts n ↔
+      match p with
+      | .prevHash k | .prevN k | .scriptSig k | .sequence k | .value k | .spk k => k < n
+      | _ => True := by
+  cases p <;> simp [allParts, List.mem_flatMap, List.mem_range]
+
+theorem changedParts_nil_iff (ht i : Nat) (t t' : Tx) : changedParts ht i t t' = [] ↔ Agree ht i t t' := by
+  unfold changedParts Agree
+  rw [List.filter_eq_nil_iff]
+  constructor
+  · intro h p hc
+    by_cases hp : p ∈ allParts (max (max t.vin.length t'.vin.length) (max t.vout.length t'.vout.length))
+    · have := h p hp
+      simpa [hc] using this
+    · rw [mem_allParts] at hp
+      cases p <;> simp only [not_true_eq_false] at hp <;>
+        simp only [Part.get] <;>
+        rw [List.getElem?_eq_none (by omega), List.getElem?_eq_none (by omega)]
+  · intro h p _
+    by_cases hc : committed ht i p = true
+    · simp [h p hc]
+    · simp [hc]
+
 end BtcVerif.CommitProofs
